@@ -5,7 +5,8 @@
    All quantities are integer microseconds; a float result of the code is
    stated through the exact rational it rounds. *)
 From Coq Require Import ZArith Bool List QArith.
-From YV Require Import Model.DateTime Lemmas.DateTimeLaws.
+From Coq Require Import Strings.String Strings.Ascii.
+From YV Require Import Common.Corr Model.DateTime Lemmas.DateTimeLaws Lemmas.DateTimeCivil Gen.DateTimeDecls.
 Import ListNotations.
 Open Scope Z_scope.
 
@@ -119,6 +120,30 @@ Theorem C20_naive_is_utc : forall o,
   (forall w, conv (Naive w) = {| wall := w; off := 0 |} /\ instant (conv (Naive w)) = w).
 Proof. exact (fun o => conj (naive_is_utc o) naive_is_utc_reading). Qed.
 
+(* the civil calendar of the model: EVERY integer day number is the day number of the
+   civil date computed for it, which is a real date (inside years 1..9999 for readings in
+   range); a reading is determined by its fields (replace() with no replacement and
+   datetime(fields of d, offset of d) give d back); date/time split the reading *)
+Theorem C20_civil_roundtrip : forall n y m d, civil_from_days n = (y, m, d) ->
+  days_from_civil y m d = n /\ 1 <= m <= 12 /\ 1 <= d <= days_in_month y m /\
+  (0 <= n < DAYS_TOTAL -> valid_civil y m d = true).
+Proof.
+  exact (fun n y m d H => match civil_roundtrip n y m d H with
+                          | conj A (conj B C) => conj A (conj B (conj C (fun R => civil_valid n y m d R H))) end).
+Qed.
+
+Theorem C20_fields_determine_reading : forall h,
+  (wall_of_fields (dt_field FYear (hwall h)) (dt_field FMonth (hwall h)) (dt_field FDay (hwall h))
+                  (dt_field FHour (hwall h)) (dt_field FMinute (hwall h)) (dt_field FSecond (hwall h))
+                  (dt_field FMicrosecond (hwall h)) = hwall h) /\
+  (valid_hdt h = true -> eval (OpReplace h None None None None None None None None) = VDt (conv h)).
+Proof. exact (fun h => conj (proj1 (wall_of_its_fields (hwall h))) (replace_nothing h)). Qed.
+
+Theorem C20_date_time_split : forall d,
+  wall (dt_date d) + dt_time d = wall d /\ 0 <= dt_time d < US_DAY /\
+  wall (dt_date d) mod US_DAY = 0 /\ off (dt_date d) = off d.
+Proof. exact date_time_split. Qed.
+
 (* what "float result rounds this rational" means in the correspondence check *)
 Theorem C20_float_tolerance : forall fn fd n d, float_close fn fd n d = true ->
   (Qabs.Qabs ((fn # fd) - (n # d)) * inject_Z 2251799813685248 <= Qabs.Qabs (n # d))%Q.
@@ -152,6 +177,20 @@ Theorem C20_naive_is_utc_historic_refuted :
     eval_with historic_decls (OpCmp Ge (Naive w) (as_utc (Naive w))) = VBool true.
 Proof. exists 63713476800000000. vm_compute. repeat split. Qed.
 
+(* tie to the code by regeneration (Gen/DateTimeDecls.v is rebuilt from the live yaql objects on
+   every run): the declarations the model evaluates with are the ones in the code, and every
+   function whose result depends on the zone declares its datetime parameters with the
+   naive -> UTC conversion (the wall-clock field properties and .offset need none) *)
+Definition zone_free (name : list Z) : bool :=
+  existsb (fun n => str_eqb name (map Z.of_nat (map Ascii.nat_of_ascii (String.list_ascii_of_string n))))
+    ["#property#year"; "#property#month"; "#property#day"; "#property#hour"; "#property#minute";
+     "#property#second"; "#property#microsecond"; "#property#weekday"; "#property#offset"]%string.
+Example C20_declarations :
+  gen_decls = repaired_decls /\
+  forallb (fun r => snd r || zone_free (fst (fst r))) dt_params = true /\
+  (20 <=? List.length dt_params)%nat = true.
+Proof. vm_compute. repeat split. Qed.
+
 (* non-vacuity: the documented example datetime(1000000, timespan(hours => 3)) *)
 Example C20_example :
   let d := dt_of_timestamp 1000000000000 10800000000 in
@@ -160,7 +199,8 @@ Example C20_example :
   eval (OpTimestamp (Aware d)) = VRat 1000000000000 1000000 /\
   eval (OpUtc (Aware d)) = VDt {| wall := EPOCH + 1000000000000; off := 0 |} /\
   eval (OpCmp Eq (Aware d) (Naive (EPOCH + 1000000000000))) = VBool true /\
-  eval (OpField FHour (Aware d)) = VInt 16 /\
+  eval (OpField FHour (Aware d)) = VInt 16 /\ eval (OpField FDay (Aware d)) = VInt 12 /\
+  eval (OpBuild 1970 1 12 16 46 40 0 10800000000) = VDt d /\ eval (OpBuild 1970 2 29 0 0 0 0 0) = VErr RangeErr /\
   eval (OpAdd (Aware {| wall := MAXWALL - 1; off := 0 |}) 1) = VErr RangeErr /\
   timestamp_historic d = 989200000000.
 Proof. vm_compute. repeat split. Qed.
@@ -173,3 +213,5 @@ Print Assumptions C20_order_is_instant_order.
 Print Assumptions C20_units.
 Print Assumptions C20_naive_is_utc.
 Print Assumptions C20_historic_refuted.
+Print Assumptions C20_civil_roundtrip.
+Print Assumptions C20_fields_determine_reading.
